@@ -119,3 +119,106 @@ Proof.
   destruct (read_byte_slice_refines _ _ _ (dec_enc_bytes boc rest Hl) 0 0) as (a & p & E).
   unfold st0. rewrite E. eexists; split; reflexivity.
 Qed.
+
+(** * liteclient's private length prefix / alignment copies and query frames *)
+Lemma lc_encode_length_spec n : lc_encode_length n = bytes_header n.
+Proof. exact (go_encode_length_spec n). Qed.
+
+Lemma lc_align_spec b : lc_align b = go_zero_padding b.
+Proof. reflexivity. Qed.
+
+(* the 0xfe form is used exactly from 254 on: the boundary a copy can get wrong *)
+Lemma lc_encode_length_boundary :
+  lc_encode_length 253 = [253] /\ lc_encode_length 254 = [254; 254; 0; 0] /\
+  lc_encode_length 255 = [254; 255; 0; 0].
+Proof. repeat split; reflexivity. Qed.
+
+Lemma le_bytes3_split n r : firstn 3 (le_bytes 3 n ++ r) = le_bytes 3 n /\ skipn 3 (le_bytes 3 n ++ r) = r.
+Proof. split; reflexivity. Qed.
+
+Theorem lc_decode_length_roundtrip n rest : n < two24 ->
+  lc_decode_length (bytes_header n ++ rest) = Ok (n, rest).
+Proof.
+  intros Hn. unfold bytes_header, lc_decode_length.
+  destruct (N.ltb_spec n 254) as [Hs|Hl]; cbn [app].
+  - destruct (N.eqb_spec n 255) as [E|_]; [lia|]. apply N.ltb_lt in Hs. now rewrite Hs.
+  - change (254 =? 255) with false. change (254 <? 254) with false. cbv iota.
+    change (short 4 (254 :: le_bytes 3 n ++ rest)) with false. cbv iota.
+    destruct (le_bytes3_split n rest) as [-> ->].
+    rewrite le_num_le_bytes_small by (rewrite pow256_3; exact Hn). reflexivity.
+Qed.
+
+Lemma pad_prefix (p b : bytes) : N.of_nat (length p) mod 4 = 0 ->
+  go_zero_padding (p ++ b) = p ++ go_zero_padding b.
+Proof.
+  intros Hp. unfold go_zero_padding. rewrite app_length, Nat2N.inj_add.
+  rewrite N.add_mod by lia. rewrite Hp, N.add_0_l, N.mod_mod by lia.
+  destruct (N.of_nat (length b) mod 4 =? 0); [reflexivity|]. now rewrite app_assoc.
+Qed.
+
+Theorem lc_request_layout id q : length id = 32%nat ->
+  lc_request_payload id q = le_bytes 4 magic_adnl_query ++ id ++ enc_bytes q.
+Proof.
+  intros Hid. unfold lc_request_payload. rewrite lc_align_spec, lc_encode_length_spec.
+  rewrite <- go_bytes_spec. unfold go_bytes. rewrite go_encode_length_spec.
+  rewrite (app_assoc (le_bytes 4 magic_adnl_query) id). rewrite pad_prefix; [now rewrite <- app_assoc|].
+  rewrite app_length, le_bytes_length, Hid. reflexivity.
+Qed.
+
+Theorem lc_ls_query_layout q : lc_ls_query q = le_bytes 4 magic_ls_query ++ enc_bytes q.
+Proof.
+  unfold lc_ls_query. rewrite lc_align_spec, <- go_bytes_spec. unfold go_bytes.
+  apply pad_prefix. reflexivity.
+Qed.
+
+Theorem lc_answer_roundtrip id resp : length id = 32%nat -> N.of_nat (length resp) < two24 ->
+  lc_process_answer (le_bytes 4 magic_adnl_answer ++ id ++ enc_bytes resp) = Ok resp.
+Proof.
+  intros Hid Hl. unfold lc_process_answer.
+  assert (Hlen : (37 <= length (le_bytes 4 magic_adnl_answer ++ id ++ enc_bytes resp))%nat).
+  { rewrite !app_length, le_bytes_length, Hid. pose proof (enc_bytes_length resp) as H. cbv zeta in H.
+    destruct (N.of_nat (length resp) <? 254); lia. }
+  rewrite short_spec. destruct (Nat.ltb_spec (length (le_bytes 4 magic_adnl_answer ++ id ++ enc_bytes resp)) 37); [lia|].
+  rewrite (app_assoc _ id). rewrite (skipn_pre 36) by (rewrite app_length, le_bytes_length, Hid; reflexivity).
+  unfold enc_bytes. rewrite lc_decode_length_roundtrip by exact Hl. cbn [bind].
+  rewrite shortN_spec, app_length, Nat2N.inj_add.
+  destruct (N.ltb_spec (N.of_nat (length resp) + N.of_nat (length (repeat 0 (pad_of (N.of_nat (length (bytes_header (N.of_nat (length resp)))) + N.of_nat (length resp))))))
+                       (N.of_nat (length resp))); [lia|].
+  rewrite Nat2N.id. now rewrite firstn_app_exact.
+Qed.
+
+(* Request's payload is the boxed adnl.Message constructor adnl.message.query of the schema *)
+Theorem lc_request_is_adnl_query sch d id q :
+  find (fun d => String.eqb "AdnlMessageQuery" (xlbl (go_naming sch) d)) (ctors_of sch "adnl.Message") = Some d ->
+  did d = magic_adnl_query -> dfields d = fields_adnl_query ->
+  hash_ok id -> all_bytes q = true -> N.of_nat (length q) < two24 ->
+  tl_encode (go_naming sch) sch (TBoxed "adnl.Message") (val_adnl_query id q) = Some (lc_request_payload id q).
+Proof.
+  intros Hf Hid Hd Hi Hq Hl. rewrite lc_request_layout by apply Hi.
+  rewrite tl_encode_eq. destruct tl_fuel_SS as (k & ->). unfold val_adnl_query. cbn [enc].
+  rewrite Hf, Hid, Hd. apply hash_ok_test in Hi. apply N.ltb_lt in Hl.
+  cbn. rewrite Hi, Hq, Hl. cbn. now rewrite app_nil_r.
+Qed.
+
+(** * Bool: the decoder accepts exactly the two constructor ids *)
+Theorem go_bool_exact B bs v :
+  fst (go_unmarshal B GBool bs) = Ok v <->
+  exists w r, split_at 4 bs = Some (w, r) /\
+    ((le_num w = bool_true_id /\ v = VBool true) \/ (le_num w = bool_false_id /\ v = VBool false)).
+Proof.
+  unfold go_unmarshal, go_fuel. cbn [Nat.mul Nat.add gdec]. unfold mbind at 1. unfold make at 1.
+  change (max_alloc <? 4 * 1) with false. cbv iota. unfold mbind, read_full, split_at, st0. cbn [inp alloc peak].
+  generalize (firstn 4 bs) as w0. generalize (skipn 4 bs) as r0. intros r0 w0.
+  destruct (short 4 bs).
+  - cbn [fst]. split; [discriminate|]. intros (w & r & H & _). discriminate.
+  - unfold bool_true_id, bool_false_id.
+    destruct (N.eqb_spec (le_num w0) 2574415285) as [E1|E1]; cbn [fst mret].
+    + split.
+      * intros H; injection H as <-. exists w0, r0. split; [reflexivity|]. left. auto.
+      * intros (w & r & H & [[Hw ->]|[Hw ->]]); injection H as <- <-; [reflexivity|]. rewrite Hw in E1. discriminate.
+    + destruct (N.eqb_spec (le_num w0) 3162085175) as [E2|E2]; cbn [fst mret mfail].
+      * split.
+        -- intros H; injection H as <-. exists w0, r0. split; [reflexivity|]. right. auto.
+        -- intros (w & r & H & [[Hw ->]|[Hw ->]]); injection H as <- <-; [congruence|reflexivity].
+      * split; [discriminate|]. intros (w & r & H & [[Hw _]|[Hw _]]); injection H as <- <-; congruence.
+Qed.
